@@ -254,6 +254,9 @@ pub struct Px {
 /// A statement with concrete keys. `rows` carry `(k, value)`.
 #[derive(Debug, Clone, PartialEq)]
 pub enum RS {
+    /// a valid multi-row write followed by a tail whose SKIP/LIMIT argument is only known (and
+    /// refused, with a "syntax error" message) at run time, after the writes were applied
+    WriteThenBadTail { labels: Vec<String>, rows: Vec<(i64, PV)>, set_key: Option<(i64, String)>, tail: u8 },
     CreateNodes { labels: Vec<String>, rows: Vec<(i64, PV)>, px: Option<Px> },
     CreatePairs { la: String, lb: String, ty: String, w: Option<i64>, rows: Vec<(i64, i64)> },
     Link { ty: String, rows: Vec<(i64, i64)> },
@@ -342,6 +345,7 @@ impl RS {
     fn apply_inner(&self, m: &mut Model) -> Result<(), MustFail> {
         match self {
             RS::Syntax => return Err(MustFail("syntax error")),
+            RS::WriteThenBadTail { .. } => return Err(MustFail("run-time SKIP/LIMIT argument error")),
             RS::CreateNodes { labels, rows, .. } => {
                 for (k, v) in rows {
                     let id = new_node(m, labels, *k);
@@ -520,6 +524,20 @@ impl RS {
         }
         match self {
             RS::Syntax => "CREATE (:A {k: 1".into(),
+            RS::WriteThenBadTail { labels: ls, rows, set_key, tail } => {
+                let (list, _) = rows_and_expr(rows, &None, "r");
+                let tails = [
+                    "RETURN r.k AS k LIMIT toInteger('-1')",
+                    "RETURN r.k AS k SKIP toInteger('-1')",
+                    "WITH r SKIP toFloat('1.5') RETURN r.k AS k",
+                    "WITH r LIMIT toFloat('0.5') RETURN r.k AS k",
+                ];
+                let t = tails[*tail as usize % tails.len()];
+                match set_key {
+                    Some((k, key)) => format!("UNWIND {list} AS r MATCH (n {{k: {k}}}) SET n.{key} = r.k CREATE ({} {{k: r.k}}) {t}", labels(ls)),
+                    None => format!("UNWIND {list} AS r CREATE ({} {{k: r.k}}) {t}", labels(ls)),
+                }
+            }
             RS::CreateNodes { labels: ls, rows, px } => {
                 let (list, expr) = rows_and_expr(rows, px, "r");
                 format!("UNWIND {list} AS r CREATE ({} {{k: r.k, p: {expr}}})", labels(ls))
@@ -912,6 +930,8 @@ pub enum Bad {
     CreateThenDelete { la: u8, lb: u8, ty: u8, both: bool, b: bool },
     LinkThenDelete { target: u16, lb: u8, ty: u8 },
     Syntax,
+    /// valid writes, then a SKIP/LIMIT argument that is refused at run time
+    BadTail { n: u8, label: u8, tail: u8, touch: u16 },
 }
 
 pub fn poison_kind() -> impl Strategy<Value = PoisonKind> + Clone {
@@ -935,6 +955,7 @@ pub fn bad() -> impl Strategy<Value = Bad> + Clone {
         2 => (0u8..3, 0u8..3, 0u8..3, any::<bool>(), any::<bool>()).prop_map(|(la, lb, ty, both, b)| Bad::CreateThenDelete { la, lb, ty, both, b }),
         2 => (any::<u16>(), 0u8..3, 0u8..3).prop_map(|(target, lb, ty)| Bad::LinkThenDelete { target, lb, ty }),
         1 => Just(Bad::Syntax),
+        3 => (1u8..=4, 0u8..3, 0u8..4, any::<u16>()).prop_map(|(n, label, tail, touch)| Bad::BadTail { n, label, tail, touch }),
     ]
 }
 
@@ -948,6 +969,11 @@ pub fn resolve_bad(b: &Bad, m: &Model, only: &BTreeSet<Iid>, next_k: &mut i64) -
     let kk = |n: Iid| k_of(m, n).unwrap();
     match b {
         Bad::Syntax => (RS::Syntax, None),
+        Bad::BadTail { n, label: l, tail, touch } => {
+            let rows: Vec<(i64, PV)> = (0..*n as usize).map(|_| (fresh(next_k), PV::Null)).collect();
+            let set_key = if cands.is_empty() || touch % 2 == 0 { None } else { Some((kk(cands[idx(*touch, cands.len())]), "q".to_string())) };
+            (RS::WriteThenBadTail { labels: vec![label(*l)], rows, set_key, tail: *tail }, Some(*n as usize))
+        }
         Bad::Rows { base, n, at, kind, label: l } => {
             let mut base = *base;
             let mut kind = *kind;
